@@ -112,10 +112,24 @@ Applicable(ep, cls) ==
   \/ Violates[cls] \in EP[ep]                  \* out-of-domain class probing a documented requirement
 Expected(ep, cls) == IF InDomain(ep, cls) THEN "returns" ELSE "raises"
 
-VARIABLES ep, cls, pc, want
-vars == <<ep, cls, pc, want>>
-Init == ep \in Names /\ cls \in Classes /\ Applicable(ep, cls) /\ pc = "cell" /\ want = ""
-Decide == pc = "cell" /\ want' = Expected(ep, cls) /\ pc' = "done" /\ UNCHANGED <<ep, cls>>
+(* HOW a guard is written decides under which interpreter it exists.  An explicit `if ...: raise` fires always; an     *)
+(* `assert` statement, or a check inside `if __debug__:`, is not compiled under python -O / PYTHONOPTIMIZE=1.          *)
+(* Mechanism is the table of the tree under test: on the pinned tree five checks of quatica/qslst.py were asserts      *)
+(* (MechanismPinned, kept for the record and for bin/selftest, which requires TLC to REJECT it); since /repo 82cc182   *)
+(* every documented guard is explicit.  The harness cannot read the mechanism off the code; it binds this table by      *)
+(* evaluating every cell under BOTH interpreters and comparing with Outcome.                                            *)
+Interpreters == {"default", "optimized"}
+MechanismPinned == [e \in Names |-> IF e \in {"apply_blur_fft", "qslst_restore_fft", "rgb_to_quat", "quat_to_rgb", "qslst_restore_matrix"} THEN "assert" ELSE "explicit"]
+MechanismRepaired == [e \in Names |-> "explicit"]
+CONSTANT PinnedTree                      \* TRUE only in the negative model of bin/selftest
+Mechanism == IF PinnedTree THEN MechanismPinned ELSE MechanismRepaired
+Fires(mech, interp) == mech = "explicit" \/ interp = "default"
+Outcome(ep, cls, interp) == IF InDomain(ep, cls) THEN "returns" ELSE IF Fires(Mechanism[ep], interp) THEN "raises" ELSE "returns"
+
+VARIABLES ep, cls, interp, pc, want
+vars == <<ep, cls, interp, pc, want>>
+Init == ep \in Names /\ cls \in Classes /\ Applicable(ep, cls) /\ interp \in Interpreters /\ pc = "cell" /\ want = ""
+Decide == pc = "cell" /\ want' = Outcome(ep, cls, interp) /\ pc' = "done" /\ UNCHANGED <<ep, cls, interp>>
 Next == Decide
 Spec == Init /\ [][Next]_vars
 
@@ -124,4 +138,6 @@ ASSUME \A e \in Names : EP[e] \subseteq Reqs
 ASSUME \A e \in Names : \E c \in Classes : Applicable(e, c) /\ InDomain(e, c)          \* everyone has an in-domain cell
 ASSUME \A e \in Names : EP[e] # {} => \E c \in Classes : Applicable(e, c) /\ ~InDomain(e, c)
 OutOfDomainRaises == pc = "done" /\ Violates[cls] # "" => want = "raises"
+(* the property does not mention the interpreter: what a cell does may not depend on it *)
+InterpreterIndependent == pc = "done" => want = Expected(ep, cls)
 =============================================================================
